@@ -193,6 +193,14 @@ static int alloc_protocol(void) {
     }
     if (!D) { printf("bad-op\n"); continue; }
     jmp_buf jb;
+    // After a caught overflow under the thread lock the reservation is not rolled back; if the lock is then
+    // released without freeing the bracket frame, top < limit and the unlocked paths would write frame records
+    // at wild addresses.  Such calls are outside any contract: both sides skip them (same rule in the driver).
+    int over = !D->threadlock && (D->pstack > (size_t)D->narena || D->parena > (size_t)D->narena - D->pstack);
+    if (over && (!strcmp(op, "mark") || !strcmp(op, "alloc") || !strcmp(op, "alloci") || !strcmp(op, "arena") ||
+                 !strcmp(op, "num") || !strcmp(op, "int") || !strcmp(op, "dispatch"))) {
+      printf("over-reserved"); print_state(); continue;
+    }
     if (!strcmp(op, "mark") && nt == 1) {
       tl_jmp = &jb;
       if (!setjmp(jb)) { mj_markStack(D); printf("ok"); } else printf("error");
